@@ -37,7 +37,7 @@ func genC11b(t *rapid.T) c11bCase {
 	var c c11bCase
 	n := rapid.IntRange(5, 40).Draw(t, "nops")
 	for i := 0; i < n; i++ {
-		op := c11bOp{Op: rapid.SampledFrom([]string{"set", "set", "set", "fetch", "fetch", "leader", "leader", "clean", "settle"}).Draw(t, "op")}
+		op := c11bOp{Op: rapid.SampledFrom([]string{"set", "set", "set", "fetch", "fetch", "fetchold", "leader", "leader", "clean", "settle"}).Draw(t, "op")}
 		op.Key = rapid.IntRange(0, 3).Draw(t, "key")
 		op.Val = int64(rapid.IntRange(0, 1000000).Draw(t, "val"))
 		op.X = rapid.IntRange(0, 1).Draw(t, "x")
@@ -170,6 +170,40 @@ func runC11b(c c11bCase, o *vfutil.Obs) *vfutil.Failure {
 		case "fetch":
 			if f := doFetch(op.Key); f != nil {
 				return f
+			}
+		case "fetchold":
+			// a client with stale metadata asks a server that does not lead the
+			// cursors partition (any more): it is refused - or, if it answers, with
+			// what the last successful SetCursor stored
+			var others []string
+			for _, id := range ids {
+				if id != leader {
+					others = append(others, id)
+				}
+			}
+			srv := others[op.X%2]
+			id, st, p := keyOf(op.Key)
+			ctx, cancel := ctxFor("", 10*time.Second)
+			resp, err := w.nodes[srv].s.api.FetchCursor(ctx, &client.FetchCursorRequest{Stream: st, Partition: p, CursorId: id})
+			cancel()
+			if err != nil {
+				hist = append(hist, fmt.Sprintf("fetch@non-leader-%s(k%d)=refused", srv, op.Key))
+				o.Label("fetch-on-non-leader-refused")
+				continue
+			}
+			hist = append(hist, fmt.Sprintf("fetch@non-leader-%s(k%d)=%d", srv, op.Key, resp.Offset))
+			want := model[op.Key]
+			if len(want) == 0 {
+				want = []int64{-1}
+			}
+			okv := false
+			for _, v := range want {
+				if v == resp.Offset {
+					okv = true
+				}
+			}
+			if !okv {
+				return vfutil.Failf("C11/wrong-cursor-from-non-leader", "FetchCursor(k%d) on %s, which does not lead the cursors partition (leader %s), succeeded with %d; the last successful SetCursor stored %v; history %v", op.Key, srv, leader, resp.Offset, want, tailS(hist, 40))
 			}
 		case "clean":
 			if p := w.part(w.nodes[leader]); p != nil {
